@@ -105,3 +105,15 @@
 
 ;; strings.Join as an uninterpreted function of (backing array, offset, length, separator)
 (declare-fun strjoin ((Array (_ BitVec 64) Str) (_ BitVec 64) (_ BitVec 64) Str) Str)
+
+;; []rune(s) and unicode/utf16.Encode as uninterpreted functions of the converted contents
+(declare-fun runes.arr (BSeq) (Array (_ BitVec 64) (_ BitVec 32)))
+
+(declare-fun runes.len (BSeq) (_ BitVec 64))
+(assert (forall ((s BSeq)) (! (and (bvsle #x0000000000000000 (runes.len s)) (bvsle (runes.len s) (bseq.len s))) :pattern ((runes.len s)))))
+
+(declare-fun utf16.arr ((Array (_ BitVec 64) (_ BitVec 32)) (_ BitVec 64) (_ BitVec 64)) (Array (_ BitVec 64) (_ BitVec 16)))
+
+(declare-fun utf16.len ((Array (_ BitVec 64) (_ BitVec 32)) (_ BitVec 64) (_ BitVec 64)) (_ BitVec 64))
+(assert (forall ((a (Array (_ BitVec 64) (_ BitVec 32))) (o (_ BitVec 64)) (n (_ BitVec 64)))
+  (! (=> (bvsle #x0000000000000000 n) (and (bvsle #x0000000000000000 (utf16.len a o n)) (bvsle (utf16.len a o n) (bvadd n n)))) :pattern ((utf16.len a o n)))))
